@@ -81,13 +81,28 @@ def check(prog, run):
     ncons = 0
     nfields = 0
     classes = {c.qualname: c for c in prog.command_classes()}
+    by_name = {}
+    for c in classes.values():
+        by_name.setdefault(c.name, []).append(c)
+    # a reference entry names module:Class; a class that moved to another module is the same class
+    moved = {}
+    for key in refcdb.CDB:
+        if key not in classes:
+            same = by_name.get(key.split(":")[1], [])
+            if len(same) == 1 and same[0].qualname not in refcdb.CDB:
+                moved[key] = same[0]
+    claimed = set(c.qualname for c in moved.values())
+    bases_of_commands = set(b.qualname for c in classes.values() for b in c.bases if isinstance(b, ClassVal))
     for q in classes:
-        if q not in refcdb.CDB:
+        if q not in refcdb.CDB and q not in claimed:
+            if q in bases_of_commands:
+                run.assumptions.append("class %s is a base of command classes, not a command of its own: no reference entry expected" % q)
+                continue
             run.violation("class-has-reference", q, "command class %s has no reference entry in spec/cdb.py" % q)
     for key, entry in refcdb.CDB.items():
-        if key not in classes:
+        if key not in classes and key not in moved:
             raise AnalysisError("anchor-missing", key)
-        cls = classes[key]
+        cls = classes.get(key) or moved[key]
         nclass += 1
         file = prog.rel(cls.module)
         init = cls.lookup("__init__")[0]
